@@ -41,6 +41,30 @@ func c13Pack(src []byte) string {
 	return Safely(func() string { return "ok " + Hx(capnp.VerifPack(nil, src)) })
 }
 
+// Unpack appending to a dst whose spare capacity holds stale non-zero bytes (the scratch-buffer
+// pattern buf, _ = Unpack(buf[:0], next)): the appended part must equal Unpack(nil, src).
+func c13UnpackDirty(src []byte, pre int) string {
+	return Safely(func() string {
+		buf := make([]byte, 1<<16)
+		for i := range buf {
+			buf[i] = 0xa5
+		}
+		out, err := capnp.VerifUnpack(buf[:pre], src)
+		if err != nil {
+			return "err"
+		}
+		if len(out) < pre {
+			return "short"
+		}
+		for i := 0; i < pre; i++ {
+			if out[i] != 0xa5 {
+				return "prefix-clobbered"
+			}
+		}
+		return "ok " + Hx(out[pre:])
+	})
+}
+
 func c13Unpack(src []byte) string {
 	return Safely(func() string {
 		out, err := capnp.VerifUnpack(nil, src)
@@ -136,6 +160,10 @@ func genPayload(r *Rand, maxWords int) []byte {
 			b = append(b, genWord(r, 0xff)...)
 			nw++
 		}
+		if r.Intn(6) == 0 { // a word with a single non-zero byte (any position) right after whatever came
+			b = append(b, genWord(r, 1<<uint(r.Intn(8)))...)
+			nw++
+		}
 	}
 	return b
 }
@@ -161,6 +189,10 @@ func runC13(out *Out, r *Rand, tier string, replay []string) {
 			src := Unhx(f[1])
 			res := c13Unpack(src)
 			out.Case("unpack", line, res, Cls(res), len(src) > 1)
+		case "unpackdirty":
+			src := Unhx(f[1])
+			res := c13UnpackDirty(src, ParseInts(f[2])[0])
+			out.Case("unpackdirty", line, res, Cls(res), len(src) > 1)
 		case "stream":
 			src := Unhx(f[1])
 			res := c13Stream(src, ParseInts(f[2]), ParseInts(f[3]), ParseInts(f[4])[0], false)
@@ -192,8 +224,13 @@ func runC13(out *Out, r *Rand, tier string, replay []string) {
 		do("pack " + Hx(w))
 		do("pack " + Hx(append(append([]byte{}, w...), make([]byte, 8)...)))
 		do("pack " + Hx(append(append([]byte{}, w...), genWord(r, 0xff)...)))
+		// a zero word (or two) followed by the pattern word: the zero-run scan must stop at it
+		do("pack " + Hx(append(make([]byte, 8), w...)))
+		do("pack " + Hx(append(make([]byte, 16), w...)))
 		p := capnp.VerifPack(nil, w)
 		do("unpack " + Hx(p))
+		do(fmt.Sprintf("unpackdirty %s %d", Hx(p), 8*(m%3)))
+		do(fmt.Sprintf("unpackdirty %s %d", Hx(capnp.VerifPack(nil, append(append(make([]byte, 8), w...), make([]byte, 24)...))), 8))
 		for cut := 0; cut < len(p); cut++ {
 			do("unpack " + Hx(p[:cut]))
 			do(fmt.Sprintf("streamword %s %s %d", Hx(p[:cut]), "4096", 16))
@@ -209,6 +246,9 @@ func runC13(out *Out, r *Rand, tier string, replay []string) {
 		packedForm := safePack(payload)
 		// valid packed input through every decoder
 		do("unpack " + Hx(packedForm))
+		if len(payload) < 30000 {
+			do(fmt.Sprintf("unpackdirty %s %d", Hx(packedForm), 8*r.Intn(5)))
+		}
 		do(fmt.Sprintf("stream %s %s %s %d", Hx(packedForm), Ints(genChunks(r)), Ints(genSizes(r)), 16+r.Intn(3)*2040))
 		do(fmt.Sprintf("streamword %s %s %d", Hx(packedForm), Ints(genChunks(r)), 16+r.Intn(2)*4080))
 		// truncations: every prefix for short inputs, random prefixes otherwise
